@@ -30,7 +30,9 @@ import (
 	banktypes "github.com/cosmos/cosmos-sdk/x/bank/types"
 	govv1 "github.com/cosmos/cosmos-sdk/x/gov/types/v1"
 	govv1beta1 "github.com/cosmos/cosmos-sdk/x/gov/types/v1beta1"
+	paramsproposal "github.com/cosmos/cosmos-sdk/x/params/types/proposal"
 	stakingtypes "github.com/cosmos/cosmos-sdk/x/staking/types"
+	upgradetypes "github.com/cosmos/cosmos-sdk/x/upgrade/types"
 
 	"github.com/kava-labs/kava/app"
 	auctiontypes "github.com/kava-labs/kava/x/auction/types"
@@ -58,33 +60,35 @@ var Genesis0 = time.Date(2024, 3, 1, 12, 0, 0, 0, time.UTC)
 
 // Config is the PRNG-chosen parameterisation of the genesis.
 type Config struct {
-	LiqRatioBnb    string
-	LiqRatioXrp    string
-	SwapFee        string
-	StabilityFee   string
-	BnbPrice       string
-	XrpPrice       string
-	KavaPrice      string
-	HardLTV        string
-	ReserveFactor  string
-	KavadistActive bool
-	StakingRewards string // community staking rewards per second
+	LiqRatioBnb     string
+	LiqRatioXrp     string
+	SwapFee         string
+	StabilityFee    string
+	BnbPrice        string
+	XrpPrice        string
+	KavaPrice       string
+	HardLTV         string
+	ReserveFactor   string
+	KavadistActive  bool
+	StakingRewards  string // community staking rewards per second
+	IssuanceLimited bool
 }
 
 func RandomConfig(r *Rng) Config {
 	pick := func(xs ...string) string { return xs[r.Intn(len(xs))] }
 	return Config{
-		LiqRatioBnb:    pick("1.5", "2.0", "1.25", "1.333333333333333333"),
-		LiqRatioXrp:    pick("1.5", "1.75", "2.25"),
-		SwapFee:        pick("0.003", "0", "0.0015", "0.01"),
-		StabilityFee:   pick("1.000000001547125958", "1.0", "1.000000004431822130", "1.000000000782997"),
-		BnbPrice:       pick("5.0", "12.5", "3.333333333333333333", "0.5"),
-		XrpPrice:       pick("0.25", "0.5", "1.0", "0.337"),
-		KavaPrice:      pick("2.0", "0.75", "1.234567890123456789"),
-		HardLTV:        pick("0.6", "0.5", "0.8"),
-		ReserveFactor:  pick("0.05", "0.0", "0.25"),
-		KavadistActive: r.Chance(1, 2),
-		StakingRewards: pick("0", "744191", "1000.5"),
+		LiqRatioBnb:     pick("1.5", "2.0", "1.25", "1.333333333333333333"),
+		LiqRatioXrp:     pick("1.5", "1.75", "2.25"),
+		SwapFee:         pick("0.003", "0", "0.0015", "0.01"),
+		StabilityFee:    pick("1.000000001547125958", "1.0", "1.000000004431822130", "1.000000000782997"),
+		BnbPrice:        pick("5.0", "12.5", "3.333333333333333333", "0.5"),
+		XrpPrice:        pick("0.25", "0.5", "1.0", "0.337"),
+		KavaPrice:       pick("2.0", "0.75", "1.234567890123456789"),
+		HardLTV:         pick("0.6", "0.5", "0.8"),
+		ReserveFactor:   pick("0.05", "0.0", "0.25"),
+		KavadistActive:  r.Chance(1, 2),
+		StakingRewards:  pick("0", "744191", "1000.5"),
+		IssuanceLimited: r.Chance(1, 2),
 	}
 }
 
@@ -300,7 +304,12 @@ func (w *World) BuildGenesis(cdc codec.JSONCodec) app.GenesisState {
 	// ---- issuance
 	issGen := issuancetypes.DefaultGenesisState()
 	issGen.Params.Assets = []issuancetypes.Asset{issuancetypes.NewAsset(w.Addrs[1].String(), "busd", []string{w.Addrs[4].String()}, false, true,
-		issuancetypes.NewRateLimit(false, sdk.ZeroInt(), time.Duration(0)))}
+		func() issuancetypes.RateLimit {
+			if cfg.IssuanceLimited {
+				return issuancetypes.NewRateLimit(true, sdkmath.NewInt(5_000_000_000), 24*time.Hour)
+			}
+			return issuancetypes.NewRateLimit(false, sdk.ZeroInt(), time.Duration(0))
+		}())}
 	issGen.Supplies = []issuancetypes.AssetSupply{issuancetypes.NewAssetSupply(c("busd", 0), time.Duration(0))}
 	gs[issuancetypes.ModuleName] = cdc.MustMarshalJSON(&issGen)
 	// ---- auction
@@ -443,13 +452,30 @@ func (w *World) GenTx(r *Rng, tApp app.TestApp, used map[int]bool) ([]byte, stri
 		m := cdptypes.NewMsgDeposit(pickOwner(r, w, A), A, c(cdenom[ct], amt(r, 5_000_000_000)), ct)
 		msg, desc = &m, "cdp.deposit"
 	case 3:
-		m := cdptypes.NewMsgWithdraw(pickOwner(r, w, A), A, c(cdenom[ct], amt(r, 5_000_000_000)), ct)
+		owner := pickOwner(r, w, A)
+		a := amt(r, 5_000_000_000)
+		if cdp, ok := tApp.GetCDPKeeper().GetCdpByOwnerAndCollateralType(ctx, owner, ct); ok && r.Chance(1, 2) {
+			if dep, ok := tApp.GetCDPKeeper().GetDeposit(ctx, cdp.ID, A); ok {
+				a = dep.Amount.Amount.Int64() - int64(r.Intn(2)) // the whole deposit, or all but one unit
+			}
+		}
+		if a <= 0 {
+			a = 1
+		}
+		m := cdptypes.NewMsgWithdraw(owner, A, c(cdenom[ct], a), ct)
 		msg, desc = &m, "cdp.withdraw"
 	case 4:
 		m := cdptypes.NewMsgDrawDebt(A, ct, c("usdx", amt(r, 1_000_000_000)))
 		msg, desc = &m, "cdp.draw"
 	case 5:
-		m := cdptypes.NewMsgRepayDebt(A, ct, c("usdx", amt(r, 3_000_000_000)))
+		a := amt(r, 3_000_000_000)
+		if cdp, ok := tApp.GetCDPKeeper().GetCdpByOwnerAndCollateralType(ctx, A, ct); ok && r.Chance(1, 2) {
+			a = cdp.GetTotalPrincipal().Amount.Int64() + int64(r.Intn(3)) - 1 // exact debt, one less, one more
+		}
+		if a <= 0 {
+			a = 1
+		}
+		m := cdptypes.NewMsgRepayDebt(A, ct, c("usdx", a))
 		msg, desc = &m, "cdp.repay"
 	case 6:
 		m := cdptypes.NewMsgLiquidate(A, other, ct)
@@ -465,10 +491,25 @@ func (w *World) GenTx(r *Rng, tApp app.TestApp, used map[int]bool) ([]byte, stri
 	case 9:
 		dn := []string{"usdx", "bnb", "ukava", "busd"}[r.Intn(4)]
 		if r.Chance(1, 2) {
-			m := hardtypes.NewMsgWithdraw(A, cs(c(dn, amt(r, 5_000_000_000))))
+			a := amt(r, 5_000_000_000)
+			if dep, ok := tApp.GetHardKeeper().GetSyncedDeposit(ctx, A); ok && r.Chance(1, 2) && dep.Amount.AmountOf(dn).IsPositive() {
+				a = dep.Amount.AmountOf(dn).Int64() + int64(r.Intn(3)) - 1
+			}
+			if a <= 0 {
+				a = 1
+			}
+			m := hardtypes.NewMsgWithdraw(A, cs(c(dn, a)))
 			msg, desc = &m, "hard.withdraw"
 		} else {
-			m := hardtypes.NewMsgRepay(A, pickOwner(r, w, A), cs(c(dn, amt(r, 2_000_000_000))))
+			owner := pickOwner(r, w, A)
+			a := amt(r, 2_000_000_000)
+			if bor, ok := tApp.GetHardKeeper().GetSyncedBorrow(ctx, owner); ok && r.Chance(1, 2) && bor.Amount.AmountOf(dn).IsPositive() {
+				a = bor.Amount.AmountOf(dn).Int64() + int64(r.Intn(3)) - 1
+			}
+			if a <= 0 {
+				a = 1
+			}
+			m := hardtypes.NewMsgRepay(A, owner, cs(c(dn, a)))
 			msg, desc = &m, "hard.repay"
 		}
 	case 10:
@@ -492,7 +533,14 @@ func (w *World) GenTx(r *Rng, tApp app.TestApp, used map[int]bool) ([]byte, stri
 		}
 	case 13:
 		pair := [][2]string{{"bnb", "usdx"}, {"ukava", "usdx"}}[r.Intn(2)]
-		msg = swaptypes.NewMsgWithdraw(A.String(), sdkmath.NewInt(amt(r, 1_000_000_000)), c(pair[0], 1), c(pair[1], 1), dl)
+		sh := sdkmath.NewInt(amt(r, 1_000_000_000))
+		if rec, ok := tApp.GetSwapKeeper().GetDepositorShares(ctx, A, swaptypes.PoolID(pair[0], pair[1])); ok && r.Chance(1, 2) {
+			sh = rec.SharesOwned.SubRaw(int64(r.Intn(2)))
+			if !sh.IsPositive() {
+				sh = sdkmath.OneInt()
+			}
+		}
+		msg = swaptypes.NewMsgWithdraw(A.String(), sh, c(pair[0], 1), c(pair[1], 1), dl)
 		desc = "swap.withdraw"
 	case 14:
 		dn := []string{"ukava", "busd"}[r.Intn(2)]
@@ -500,7 +548,14 @@ func (w *World) GenTx(r *Rng, tApp app.TestApp, used map[int]bool) ([]byte, stri
 			m := savingstypes.NewMsgDeposit(A, cs(c(dn, amt(r, 1_000_000_000))))
 			msg, desc = &m, "savings.deposit"
 		} else {
-			m := savingstypes.NewMsgWithdraw(A, cs(c(dn, amt(r, 1_000_000_000))))
+			a := amt(r, 1_000_000_000)
+			if dep, ok := tApp.GetSavingsKeeper().GetDeposit(ctx, A); ok && r.Chance(1, 2) && dep.Amount.AmountOf(dn).IsPositive() {
+				a = dep.Amount.AmountOf(dn).Int64() + int64(r.Intn(3)) - 1
+			}
+			if a <= 0 {
+				a = 1
+			}
+			m := savingstypes.NewMsgWithdraw(A, cs(c(dn, a)))
 			msg, desc = &m, "savings.withdraw"
 		}
 	case 15:
@@ -511,7 +566,15 @@ func (w *World) GenTx(r *Rng, tApp app.TestApp, used map[int]bool) ([]byte, stri
 		if r.Chance(2, 3) {
 			msg, desc = earntypes.NewMsgDeposit(A.String(), c(dn, amt(r, 1_000_000_000)), st), "earn.deposit"
 		} else {
-			msg, desc = earntypes.NewMsgWithdraw(A.String(), c(dn, amt(r, 1_000_000_000)), st), "earn.withdraw"
+			a := amt(r, 1_000_000_000)
+			ek := tApp.GetEarnKeeper()
+			if v, err := ek.GetVaultAccountValue(ctx, dn, A); err == nil && v.Amount.IsPositive() && r.Chance(2, 3) {
+				a = v.Amount.Int64() - int64(r.Intn(4)) // whole value, or leaving 1..3 units (dust sweep territory)
+			}
+			if a <= 0 {
+				a = 1
+			}
+			msg, desc = earntypes.NewMsgWithdraw(A.String(), c(dn, a), st), "earn.withdraw"
 		}
 	case 16: // bep3 create (outgoing by user, or incoming by deputy — deputy is not in the user range, so sign as deputy)
 		secret := sha256.Sum256([]byte(fmt.Sprintf("secret-%d-%d", w.Height, r.Next())))
@@ -643,8 +706,15 @@ func (w *World) GenTx(r *Rng, tApp app.TestApp, used map[int]bool) ([]byte, stri
 		if r.Chance(1, 2) {
 			prop := committeetypes.NewCommitteeDeleteProposal("x", "y", 99)
 			_ = prop
-			txt := govv1beta1.NewTextProposal("committee text", "nothing")
-			m, err := committeetypes.NewMsgSubmitProposal(txt, w.Addrs[signer], 1)
+			var content committeetypes.PubProposal = govv1beta1.NewTextProposal("committee text", "nothing")
+			switch r.Intn(3) {
+			case 0: // an upgrade plan a few blocks ahead: stale by the time the deciding vote arrives
+				content = upgradetypes.NewSoftwareUpgradeProposal("up", "plan", upgradetypes.Plan{Name: fmt.Sprintf("plan-%d", w.Height), Height: w.Height + int64(1+r.Intn(4))})
+			case 1: // a parameter change
+				content = paramsproposal.NewParameterChangeProposal("p", "change", []paramsproposal.ParamChange{
+					{Subspace: "auction", Key: "MaxAuctionDuration", Value: fmt.Sprintf("\"%d\"", (1+r.Intn(48))*3600_000_000_000)}})
+			}
+			m, err := committeetypes.NewMsgSubmitProposal(content, w.Addrs[signer], 1)
 			if err != nil {
 				panic(err)
 			}
